@@ -217,3 +217,59 @@ Proof.
     apply Bz; apply LedgerProofs.asset_eqb_neq; intros ->; apply Hzn; [left; reflexivity|].
     right. left. reflexivity.
 Qed.
+
+(* ------------------------------------------------------------------------------------------ *)
+(* the theorems                                                                                *)
+(* ------------------------------------------------------------------------------------------ *)
+Theorem route_delivers_quote : forall ops w sender a0 to w' amount pairs,
+  ops <> [] ->
+  router_hops w ops (match to with Some t => t | None => sender end) = Ok w' ->
+  chain_from a0 ops ->
+  let rcv := match to with Some t => t | None => sender end in
+  rcv <> w_rtr w ->
+  length pairs = length ops ->
+  (forall i o p, nth_error ops i = Some o -> nth_error pairs i = Some p -> hop_ok w rcv o p) ->
+  NoDup pairs ->                                               (* hops use distinct pairs *)
+  (forall x y, In x (route_assets a0 ops) -> In y (route_assets a0 ops) -> x = y \/ asset_eqb x y = false) ->
+  NoDup (route_assets a0 ops) ->                               (* a simple path: pairwise distinct assets *)
+  asset_balance w a0 (w_rtr w) = Ok amount ->                   (* the router holds the input ... *)
+  (forall x, In x (map snd ops) -> bal w x (w_rtr w) = 0) ->    (* ... and none of the other route assets *)
+  exists q, q_router_simulate w amount ops = Ok q /\
+            bal w' (snd (last ops (a0, a0))) rcv = bal w (snd (last ops (a0, a0))) rcv + q /\
+            (forall x, In x (route_assets a0 ops) -> bal w' x (w_rtr w) = 0).
+Proof.
+  intros ops w sender a0 to w' amount pairs Hne H Hch rcv Hrr Hlen Hok Hnp _ Hna Hb Hz.
+  fold rcv in H.
+  pose proof (forall2_of_nth (hop_ok w rcv) ops pairs Hlen Hok) as HF.
+  destruct (route_inv ops pairs w w rcv a0 w' Hne H Hch (same_config_refl w) Hrr HF Hnp Hna
+              (fun _ _ _ => eq_refl) Hz) as (q & Hq & Hdel & Hzero & _).
+  apply asset_balance_bal in Hb. rewrite <- Hb in Hq.
+  exists q. split; [exact Hq|]. split; [exact Hdel | exact Hzero].
+Qed.
+
+Theorem router_exec_ops_delivers_quote : forall ops w sender a0 to w' amount pairs,
+  router_exec_ops w sender ops None to = Ok w' ->
+  chain_from a0 ops ->
+  let rcv := match to with Some t => t | None => sender end in
+  rcv <> w_rtr w -> length pairs = length ops ->
+  (forall i o p, nth_error ops i = Some o -> nth_error pairs i = Some p -> hop_ok w rcv o p) ->
+  NoDup pairs ->
+  (forall x y, In x (route_assets a0 ops) -> In y (route_assets a0 ops) -> x = y \/ asset_eqb x y = false) ->
+  NoDup (route_assets a0 ops) ->
+  asset_balance w a0 (w_rtr w) = Ok amount ->
+  (forall x, In x (map snd ops) -> bal w x (w_rtr w) = 0) ->
+  exists q, q_router_simulate_ops w amount ops = Ok q /\
+            bal w' (snd (last ops (a0, a0))) rcv = bal w (snd (last ops (a0, a0))) rcv + q /\
+            (forall x, In x (route_assets a0 ops) -> bal w' x (w_rtr w) = 0).
+Proof.
+  intros ops w sender a0 to w' amount pairs H Hch rcv Hrr Hlen Hok Hnp Hdec Hna Hb Hz.
+  destruct ops as [|op0 ops0]; [discriminate|].
+  unfold router_exec_ops in H. bnd H u Hu. cbv zeta in H.
+  assert (Hne : op0 :: ops0 <> []) by discriminate.
+  destruct (route_delivers_quote (op0 :: ops0) w sender a0 to w' amount pairs Hne H Hch Hrr Hlen Hok Hnp Hdec Hna Hb Hz)
+    as (q & Hq & Hrest).
+  exists q. split; [exact Hq | exact Hrest].
+Qed.
+
+Print Assumptions route_delivers_quote.
+Print Assumptions router_exec_ops_delivers_quote.
